@@ -915,7 +915,10 @@ def zrank_recursion(rep, ex: Explorer, cls: str):
 
     def setup2(I):
         # the recorded mode of the partition is unknown: neither mode has a case of its own
-        s = _obj(I, cls, lambda I: {"_z_partition": P_value("cond"), "_state": I.alloc(HDict(entries={"z_partition_extended": Sym("extended-mode", "bool")}))})
+        # (what the metadata store holds is the caller's business - it is handed in, aliased, and overwritten by load_metadata:
+        # unknown content, so that a start index that listens to it shows)
+        s = _obj(I, cls, lambda I: {"_z_partition": P_value("cond"), "_state": I.alloc(HDict(entries={"z_partition_extended": Sym("extended-mode", "bool")})),
+                                    "_metadata": I.alloc(HDict(sym=("unknown", "metadata")))})
         return [s, ElemV(W, "key")], {}
 
     from ..harness import reccall_summary
